@@ -225,6 +225,7 @@ class Served:
         self.config.errorlog = None
         # (trio only) serve() without a shutdown trigger, the way `trio.run(serve, app, config)` is documented
         self.no_trigger = bool(cfg.pop("_no_trigger", False))
+        self.mode = cfg.pop("_mode", None)            # "wsgi": the application is a WSGI callable
         for k, v in cfg.items():
             setattr(self.config, k, v)
         self.app = app
@@ -248,7 +249,7 @@ class Served:
                     while not self.trigger.is_set():
                         await asyncio.sleep(0.01)
 
-                asyncio.run(serve(self.app, self.config, shutdown_trigger=trig))
+                asyncio.run(serve(self.app, self.config, shutdown_trigger=trig, mode=self.mode))
             else:
                 import trio
 
@@ -261,7 +262,7 @@ class Served:
                 if self.no_trigger:
                     trio.run(lambda: serve(self.app, self.config))
                 else:
-                    trio.run(lambda: serve(self.app, self.config, shutdown_trigger=trig))
+                    trio.run(lambda: serve(self.app, self.config, shutdown_trigger=trig, mode=self.mode))
         except BaseException as e:  # noqa: BLE001
             self.result["error"] = e
         finally:
